@@ -83,7 +83,7 @@ Fixpoint parse_ops (fuel : nat) (err_on_checksig : bool) (bs : bytes) (depth : Z
       | b :: r =>
           let v := b2n b in
           if err_on_checksig && requires_tx v then None else
-          let depth' := if (v =? OP_IF)%N || (v =? OP_NOTIF)%N || (v =? OP_VERIF)%N || (v =? OP_VERNOTIF)%N
+          let depth' := if (v =? OP_IF)%N || (v =? OP_NOTIF)%N
                         then depth + 1 else if (v =? OP_ENDIF)%N then depth - 1 else depth in
           if (v =? OP_RETURN)%N && (depth =? 0) then
             Some (mkPop v 1 [] true ::
@@ -742,7 +742,7 @@ Definition engine_execute (so : sigops) (i : exec_input) : verdict * list snapsh
             | Some l =>
                 if has_flag c F_SIGPUSHONLY && negb (is_push_only u) then (VErr, [])
                 else
-                  let p2sh := has_flag c F_BIP16 && is_p2sh (ei_lock i) in
+                  let p2sh := has_flag c F_BIP16 && negb (after_genesis c) && is_p2sh (ei_lock i) in
                   if p2sh && negb (is_push_only u) then (VErr, [])
                   else execute so c p2sh u l
             end
